@@ -1,3 +1,14 @@
-import WmModel.Props.C06
+import WmModel.Props.C06Old
 #print axioms Wm.RouterLife.close_nil_means_quiet
 #print axioms Wm.RouterLife.no_start_after_close_nil
+#print axioms Wm.RouterLife.message_fate
+#print axioms Wm.RouterLife.publisher_closed_before_close_returns
+#print axioms Wm.RouterLife.publisher_closed_at_most_once
+#print axioms Wm.RouterLife.subscriber_closed_by_handle_close
+#print axioms Wm.RouterLife.close_timeout_returns_error
+#print axioms Wm.RouterLife.runhandlers_progress
+#print axioms Wm.RouterLife.every_close_call_can_proceed
+#print axioms Wm.RouterLife.close_again_returns_nil
+#print axioms Wm.RouterLife.run_returns_only_after_closed
+#print axioms Wm.RouterLife.Old.close_race_witness
+#print axioms Wm.RouterLife.Old.close_skips_subscriber_witness
